@@ -2,6 +2,7 @@
 #ifndef AMGSIM_HARNESS_MAIN_HPP
 #define AMGSIM_HARNESS_MAIN_HPP
 #include "harness.hpp"
+#include "../sim/alloc.hpp"
 #include <signal.h>
 #include <unistd.h>
 #include <time.h>
@@ -10,6 +11,14 @@
 #include <sys/resource.h>
 
 namespace hz {
+
+// every execution starts from the same simulated-heap state, so that no run depends on what its worker did before
+static Result execute_clean(const Plan &p) {
+    sim::HeapConfig hc; hc.fill = sim::HF_AA; hc.recycle = 0; hc.shift = 0; hc.seed = p.run;
+    sim::heap_configure(hc);
+    sim::probes_reset_run();
+    return execute(p);
+}
 
 static long long g_current_run = -1;
 static const char *g_phase = "run";
@@ -39,7 +48,7 @@ struct Shrinker {
     bool still(const Plan &p) {
         if (execs >= budget || wall_now() > deadline) return false;
         ++execs;
-        Result r = execute(p);
+        Result r = execute_clean(p);
         for (size_t i = 0; i < r.v.size(); ++i) if (r.v[i].klass() == klass) { last = r; return true; }
         return false;
     }
@@ -138,7 +147,7 @@ static int replay_main(const std::string &path) {
     Plan plan = Plan::from_json(j.at("plan"));
     std::string klass = j.get_str("class"), hash = j.get_str("hash");
     g_current_run = (long long)plan.run; g_phase = "replay";
-    Result r = execute(plan);
+    Result r = execute_clean(plan);
     char hb[32]; snprintf(hb, sizeof hb, "%016llx", (unsigned long long)r.hash);
     const Violation *v = find_class(r, klass);
     if (v && hash == hb) { printf("REPRODUCED property=%s class=%s hash=%s detail=%s\n", CHECK_ID, klass.c_str(), hb, v->detail.c_str()); return 1; }
@@ -214,7 +223,7 @@ static int worker_main(int argc, char **argv) {
         Plan plan = generate(seed, (uint64_t)idx, thorough);
         plan.seed = seed; plan.run = (uint64_t)idx;
         if (print_plan) { printf("P %s\n", plan.to_json().str().c_str()); fflush(stdout); }
-        Result r = execute(plan);
+        Result r = execute_clean(plan);
         ++evals; ticks += r.ticks; micro += r.micro; switches += r.switches; worlds += r.worlds;
         add_map(faults, r.faults); add_map(counts, r.counts);
         strategies[sim::strategy_name(plan.sched.strategy)]++;
@@ -244,7 +253,7 @@ static int worker_main(int argc, char **argv) {
                 }
                 // gate: same plan, same process, must reproduce with the same hash
                 g_phase = "gate";
-                Result r2 = execute(plan);
+                Result r2 = execute_clean(plan);
                 const Violation *v2 = find_class(r2, v.klass());
                 if (!v2 || r2.hash != r.hash) {
                     js::Value e = js::Value::object(); e.set("error", "nondeterministic"); e.set("run", idx); e.set("class", v.klass());
@@ -260,7 +269,7 @@ static int worker_main(int argc, char **argv) {
                     mp = sh.run(plan, r);
                     sexecs = sh.execs;
                     g_phase = "shrink-final";
-                    mr = execute(mp);
+                    mr = execute_clean(mp);
                     if (!find_class(mr, v.klass())) { mp = plan; mr = r; }   // be safe
                 }
                 const Violation *mv = find_class(mr, v.klass());
